@@ -157,3 +157,14 @@ M("C03", "dst_in_off_by_one", "odc/geo/overlap.py", "        _in = (0, min(math.
 M("C03", "dst_out_floor", "odc/geo/overlap.py", "        _out = (Ns, max(0, math.ceil(Ns * s_ + t_)))", "        _out = (Ns, max(0, math.floor(Ns * s_ + t_)))", "destination end floored")
 M("C03", "back_transform_is_forward", "odc/geo/overlap.py", "        back = LinearPointTransform(~self.A, self)", "        back = LinearPointTransform(self.A, self)", "back transform not inverted")
 M("C03", "clamp_wrong_axis", "odc/geo/overlap.py", "            self._clamps = ((-180, 180), (-90, 90))", "            self._clamps = ((-90, 90), (-180, 180))", "lon/lat clamps swapped")
+
+# ----------------------------------------------------------------------------- C10
+M("C10", "flip_off_by_one", "odc/geo/overlap.py", "        s, t = -s, Ns - t\n", "        s, t = -s, Ns - t - 1\n", "mirrored axis overlap off by one")
+M("C10", "snap_affine_loses_sign", "odc/geo/math.py", "    sx_ = snap_scale(sx, stol)\n", "    sx_ = abs(snap_scale(sx, stol))\n", "snap_affine drops the sign of the x scale")
+M("C10", "can_paste_ignores_ty", "odc/geo/overlap.py", "    if not all(is_almost_int(t, ttol) for t in (tx, ty)):", "    if not all(is_almost_int(t, ttol) for t in (tx,)):", "sub-pixel y translation not checked")
+M("C10", "is_affine_st_tol_1", "odc/geo/math.py", "def is_affine_st(A: Affine, tol: float = 1e-10) -> bool:", "def is_affine_st(A: Affine, tol: float = 1.0) -> bool:", "rotation tolerance 1")
+M("C10", "can_paste_no_axis_scale_check", "odc/geo/overlap.py", "    if any(abs(abs(s) - 1) > stol for s in (sx, sy)):  # not equal scaling across axis?", "    if False:  # not equal scaling across axis?", "unequal axis scales accepted for pasting")
+M("C10", "paste_without_snapping", "odc/geo/overlap.py", "            A_ = snap_affine(A, ttol=ttol, stol=stol)\n            roi_src, roi_dst = box_overlap(src.shape, dst.shape, A_)", "            A_ = A\n            roi_src, roi_dst = box_overlap(src.shape, dst.shape, A_)", "paste overlap computed from the un-snapped transform")
+M("C10", "maybe_int_truncates", "odc/geo/math.py", "        return int(x_whole)\n", "        return int(x)\n", "near-integers just below are truncated")
+M("C10", "ttol_doubled", "odc/geo/overlap.py", "        paste_ok, _ = _can_paste(A, ttol=ttol, stol=stol)", "        paste_ok, _ = _can_paste(A, ttol=2.5 * ttol, stol=stol)", "translation tolerance 2.5x the stated one")
+M("C10", "shrink_overlap_native_shape", "odc/geo/overlap.py", "            roi_src, roi_dst = box_overlap(_src.shape, dst.shape, A_)\n            roi_src = scaled_up_roi(roi_src, read_shrink)", "            roi_src, roi_dst = box_overlap(src.shape, dst.shape, A_)\n            roi_src = scaled_up_roi(roi_src, read_shrink)", "overview overlap computed with the native source shape")
